@@ -4,7 +4,7 @@
 import sys, os, re, shutil, glob
 V = os.path.dirname(os.path.dirname(os.path.abspath(__file__)))
 pid, src = sys.argv[1], sys.argv[2]
-have = [int(re.search(r'mut(\d+)$', d).group(1)) for d in glob.glob(os.path.join(V, 'seeded', pid + '-mut*')) + glob.glob(os.path.join(V, 'seeded', '_obsolete', pid + '-mut*'))]
+have = [int(m.group(1)) for m in (re.search(r'mut(\d+)', os.path.basename(d)) for d in glob.glob(os.path.join(V, 'seeded', pid + '-mut*')) + glob.glob(os.path.join(V, 'seeded', '_obsolete', pid + '-mut*'))) if m]
 k = max(have + [0])
 for m in sorted(glob.glob(os.path.join(src, 'out', 'mut*'))):
     if not os.path.exists(os.path.join(m, 'patch.diff')):
